@@ -27,7 +27,7 @@ theorem execAct_wact (c : Cfg) (rq : Req) (fs : FS) (l : Local) (a : Act) (ha : 
   | cstat =>
     simp only [execAct]
     split
-    · right; left; rename_i h; exact ⟨trivial, h, rfl, rfl⟩
+    · right; left; rename_i h; exact ⟨trivial, h.2, rfl, rfl⟩
     · left; exact ⟨rfl, rfl⟩
   | _ => simp [Act.isWAct] at ha
 
